@@ -76,6 +76,21 @@ CLAIMED['C15'] = ('TLA+ spec DataPanel.tla (Pivot/Means/Order/Shares/Reconcile/S
                   'Tied means may come in any order; duplicate (geo,date) rows and tuple-typed geo indexes are outside the property. ' + TRUST,
                   'DESIGN.md section 4 C15')
 
+CLAIMED['C11'] = ('TLA+ spec MMCount.tla: closed-form count = |generated pairs| = |declarative assignments| checked by TLC for all class-count '
+                  'vectors; a hash-selected residue class replayed into count_max_designs() and the real generators',
+                  'Exhaustive at design level over all class-count vectors up to the bound x 180 size/ratio settings (three definitions '
+                  'compared); thousands of those instances realised as eligibility matrices: the real count must equal TLC\'s and the real '
+                  'generator listing must be that many distinct legal pairs.',
+                  'Fixed panel (the count depends only on class counts); itertools.combinations modelled as all k-subsets. ' + TRUST,
+                  'DESIGN.md section 4 C11')
+CLAIMED['C19'] = ('TLA+ specs Screening.tla (fit() pipeline as a state machine with nondeterministic detectors, model-checked) and ScreeningTrace.tla '
+                  '(batch trace validation of recorded fit() runs, one verdict with clause name per trace)',
+                  'Design level: all detector answers over small frames keep ScreenedExact / AnalysisExact / CallerFrameUnchanged; binding: '
+                  'hundreds (quick) to thousands (thorough) of real fits under shuffled rows, custom column names and labels, judged in TLA+; '
+                  'seeded design errors and corrupted trace fields are re-checked on every run.',
+                  'Which geos are noisy / which dates are outliers is not specified (numeric); frames have date as a column; integer responses so '
+                  'totals are exact. ' + TRUST, 'DESIGN.md section 4 C19')
+
 PENDING_REASON = 'check not built yet in this round (planned, see DESIGN.md section 10); not claimed until it runs'
 
 
